@@ -126,14 +126,15 @@ def main():
                 "and on y, attribute vs attribute across variables, membership of x in y.items) and seeded random subsets of the "
                 "6-atom 'logic6' and the 'access' vocabulary (attribute chains x.ref.a, object-valued comparisons, x != y), each "
                 "with the reference Answers for every assignment of {empty, singleton, complete} domains to x and y and every "
-                "selection (x | y | x,y) that the statement settles; every case is built with the public API (entity / set_of, "
-                "in_ / contains alternating) and evaluated; result rows are compared as sets. Non-trivial = a condition with at "
+                "selection (x | y | x,y) that the statement settles; EQLFlat.tla adds 184 conditions over f = flatten(y.items), EQLTerms.tla 340 over indexing, method calls and a nested query used as a variable; every case is built with the public API (entity / set_of, "
+                "in_ / contains alternating) and evaluated (every fifth condition on a world whose objects are falsy Python objects); result rows are compared as sets. Non-trivial = a condition with at "
                 "least one connective and a case with a non-empty expected set; distinct by (condition, domains, selection).")
     # layer I => R on the model (the pipeline returns exactly the satisfying rows), reference sanity, non-vacuity
     ctx.run_tlc("EQLCore", "EQLCore_mc_logic.cfg" if thorough else "EQLCore_mc_logic_q.cfg", expect="ok", seed=ctx.seed + 1)
     if thorough:
         ctx.run_tlc("EQLCore", "EQLCore_mc_access.cfg", expect="ok", seed=ctx.seed + 1)
     ctx.run_tlc("EQLCore", "EQLCore_sw_NegUnionFlipsEach.cfg", expect="violation")
+    ctx.run_tlc("EQLCore", "EQLCore_sw_OperandTruthFilter.cfg", expect="violation")
     fams = [("logic", "EQLCore_gen_logic.cfg", 3000), ("logic6", "EQLCore_gen_logic6.cfg" if thorough else "EQLCore_gen_logic6_q.cfg", 400),
             ("access", "EQLCore_gen_access.cfg" if thorough else "EQLCore_gen_access_q.cfg", 400)]
     fams.append(("quant", "EQLCore_gen_quant.cfg" if thorough else "EQLCore_gen_quant_q.cfg", 400))
@@ -147,7 +148,26 @@ def main():
             c["variant"] = i % 6
             c["family"] = fam
             c["reeval"] = fam != "quant" and i % 3 == 0        # every third condition is evaluated again after an in-place edit
+            c["falsy"] = i % 5 == 4                            # every fifth condition runs on a world of falsy objects
             cases.append(c)
+    # flattened collection attribute (EQLFlat.tla): f = flatten(y.items) as a derived variable
+    flat = [j for j in ctx.run_tlc("EQLFlat", "EQLFlat_gen.cfg", expect="ok").json_lines() if isinstance(j, dict) and "cond" in j]
+    if len(flat) != 184:
+        raise MachineryError(f"EQLFlat_gen: expected 184 conditions, got {len(flat)}")
+    for i, j in enumerate(flat):
+        cs = [{"dom": {"x": c["dx"], "y": c["dy"], "__flat__": True}, "sel": c["sel"], "exp": c["exp"]} for c in j["cases"]]
+        if not thorough:
+            cs = cs[i % 3::3]
+        cases.append({"cond": j["cond"], "cases": cs, "variant": i % 6, "family": "flat", "reeval": False, "falsy": i % 5 == 4})
+    # derived terms (EQLTerms.tla): indexing, method calls with and without arguments, a nested query used as a variable
+    terms = [j for j in ctx.run_tlc("EQLTerms", "EQLTerms_gen.cfg", expect="ok").json_lines() if isinstance(j, dict) and "cond" in j]
+    if len(terms) != 340:
+        raise MachineryError(f"EQLTerms_gen: expected 340 conditions, got {len(terms)}")
+    for i, j in enumerate(terms):
+        cs = [{"dom": {"x": c["dx"], "y": c["dy"], "__terms__": True}, "sel": c["sel"], "exp": c["exp"]} for c in j["cases"]]
+        if not thorough:
+            cs = cs[i % 3::3]
+        cases.append({"cond": j["cond"], "cases": cs, "variant": i % 6, "family": "terms", "reeval": False, "falsy": i % 5 == 4})
     results = replay("eql", cases)
     ctx.replayed = sum(len(c["cases"]) for c in cases)
     unsettled = 0
@@ -186,7 +206,7 @@ def main():
                 ctx.known_finding("C01-F05", {"cond": c["cond"], "dom": cs["dom"], "missing": sorted(exp - got)})
             elif err or exp != got:
                 ctx.violation({"family": c["family"], "cond": c["cond"], "dom": cs["dom"], "sel": cs["sel"], "variant": c["variant"],
-                               "expected": sorted(exp), "observed": sorted(got), "error": err,
+                               "falsy_objects": c["falsy"], "expected": sorted(exp), "observed": sorted(got), "error": err,
                                "missing": sorted(exp - got), "extra": sorted(got - exp)},
                               note="rows returned differ from the satisfying assignments")
     ctx.cov["conditions"] = len(cases)
